@@ -359,12 +359,22 @@ def components_glue(rep, tier, sd):
         if kind == "battery":
             obj = StationaryBattery(spec)
         else:
-            vt = {"name": "vt", "capacity": spec["capacity"], "charging_curve": cc, "v2g": True, "v2g_power_factor": rng.choice([0.5, 1])}
+            # the vehicle's battery discharges along its type's discharge curve whether or not the type takes part in V2G
+            factor = rng.choice([0.5, 1, 0.25])
+            vt = {"name": "vt", "capacity": spec["capacity"], "charging_curve": cc, "v2g": rng.random() < 0.5, "v2g_power_factor": factor}
             if dc is not None:
                 vt["discharge_curve"] = dc
             vtype = VehicleType(vt)
             obj = Vehicle({"vehicle_type": "vt", "soc": soc}, {"vt": vtype}).battery
             dcurve = vtype.discharge_curve
+            if dc is None:
+                # derived discharge curve: v2g_power_factor times the charging curve, point by point (independent of clamped())
+                exp_pts = [(float(s_), float(p_) * factor) for s_, p_ in cc]
+                got_pts = [(float(s_), float(p_)) for s_, p_ in dcurve.points]
+                if len(exp_pts) != len(got_pts) or any(abs(a[0] - b_[0]) > 1e-12 or abs(a[1] - b_[1]) > 1e-9 for a, b_ in zip(exp_pts, got_pts)):
+                    rep.add_violation("C01/components-default-discharge-curve", "vehicle type %r: derived discharge curve %r is not %s x the charging curve %r"
+                                      % (vt, got_pts, factor, exp_pts), {"unit": "glue", "case": {"spec": vt, "kind": kind}})
+                    continue
         want = ((obj.discharge_curve if obj.discharge_curve is not None else obj.charging_curve) if kind == "battery" else dcurve)
         n += 1
         if [tuple(p) for p in obj.unloading_curve.points] != [tuple(p) for p in want.points]:
@@ -392,11 +402,16 @@ def run(tier):
         rep.notes["exp_log_oracle"] = dict(ORACLE_STATS, bound="normalised error <= 2^-51 (exp: relative/(1+|x|), ln: absolute/(1+|ln x|)), against 60-digit decimal arithmetic")
         if ORACLE_STATS["max_rel_err"] > 2.0 ** -51:
             rep.add_broken("exp/log oracle: a libm result is further than the normalised bound 2^-51 from the true value", ORACLE_STATS)
-    return corr.standard_run("C01", tier, [UNIT], 400, 6000, TRUSTED, RULE, extra=extra)
+    import c03
+    # the curve unit (lookup / clamping, C03) is part of this check: every battery operation acts through it
+    return corr.standard_run("C01", tier, [UNIT, c03.UNIT], {"battery": 400, "curve": 300}, {"battery": 6000, "curve": 3000}, TRUSTED, RULE, extra=extra)
 
 
 def replay(payload):
     case = payload["input"]["case"]
+    if payload["input"].get("unit") == "curve":
+        import c03
+        return c03.replay(payload)
     if payload["input"].get("unit") in ("unlimited-float", "glue"):
         rep = C.Report("C01", "quick")
         (float_unlimited if payload["input"]["unit"] == "unlimited-float" else components_glue)(rep, "quick", C.seed())
